@@ -10,6 +10,12 @@ CHECKS = {
  "C03": dict(engine="A", technique="property-based testing with an exhaustive reference oracle: GLR forest vs independent derivation-tree enumerator (proptest, shrinking)",
    text="Bounded random exploration of ambiguous / non-LR / nullable / hidden-recursive / lexically ambiguous grammars; for each input the complete set of derivation trees is enumerated by an independent memoised enumerator and compared as a multiset with every tree of the real forest (by index and by all three iteration routes), including counts and out-of-range indexes.",
    note="Trusted: reference enumerator and its scope decision (acyclic, <=1 empty derivation per nonterminal); regex crate for reference recognisers; <=300 trees, <=9 tokens."),
+ "C04": dict(engine="A", technique="property-based testing with a complete per-grammar comparison: real LR table vs independently constructed canonical LR(1) automaton (simulation relation, lookahead unions, every action cell)",
+   text="Bounded random exploration over grammars; for each generated grammar and each of LALR / LALR_PAGER / LALR_RN the real table (all items, lookaheads, transitions, action cells, incl. the Layout start state) is compared completely with a canonical LR(1) automaton built from scratch by the harness; plus the two stated consequences (LALR(1) grammar => no conflicts in LR mode under every table type; conflict-free raw table => unambiguous on sampled sentences).",
+   note="Trusted: the harness's LR(1) construction (own FIRST/closure/goto); dump hook; canonical automaton <= 4000 states."),
+ "C05": dict(engine="A", technique="model-based property testing of every conflicting table cell against the documented decision function + differential testing against a precedence-climbing parser (proptest, shrinking)",
+   text="Bounded random exploration: conflict-rich generated grammars with random priorities/associativity (productions, rules, terminals)/nops/nopse x {LR,GLR} x prefer_shifts x prefer_shifts_over_empty x {LALR,LALR_PAGER}; every cell of the resolved real table is compared with the raw real table through a declarative model of the documented rules (strong on two-candidate cells, order-independent predicate on multi-way cells; compiler abort is a failure); annotated expression grammars are parsed by the real LR parser and compared with a precedence-climbing reference.",
+   note="Trusted: the harness's reading of the documented rules (DESIGN.md appendix A.1); effective production meta-data taken from the spec; state correspondence raw/resolved verified per case."),
  "C07": dict(engine="A", technique="property-based differential testing: real LR parser vs real GLR parser on the same generated deterministic grammar (proptest, shrinking)",
    text="Bounded random exploration: for generated conflict-free grammars the LR parser (defaults) and the GLR parser (LALR_RN) built from the same text are run on generated valid and invalid inputs (ASCII and multi-byte, multi-line); acceptance, solution count, tree (productions, token kinds/texts/spans, node spans after stripping trailing empty children) and error positions must agree.",
    note="Trusted: scope decision uses the real raw table (cross-checked against an independent LR(1) construction in C04); no Layout rule (GLR trees carry no layout by design)."),
